@@ -60,8 +60,63 @@ class SVRP(Adapter):
     def make_env(self, inst):
         from rl4co.envs import SVRPEnv
 
-        return SVRPEnv(generator_params={"num_loc": inst["N"], "tech_costs": list(inst["cost"])},
+        class Guarded(SVRPEnv):
+            """The real SVRPEnv.  Only difference: where the real get_action_mask raises for the
+            WHOLE batch ("index out of bounds": some row's current_tech ran past the last
+            technician) that row is shown with an all-False mask instead, so that the monitors
+            can report it as a dead end of that row (C02) instead of the harness crashing.
+            Never happens on the unchanged tree within the steps the properties quantify over."""
+
+            @staticmethod
+            def get_action_mask(td):
+                T = td["techs"].size(-2)
+                over = (td["current_tech"] >= T).reshape(td["current_tech"].shape[0], -1).any(-1)
+                if not bool(over.any()):
+                    return SVRPEnv.get_action_mask(td)
+                td2 = td.clone()
+                td2["current_tech"] = td["current_tech"].clamp(max=T - 1)
+                m = SVRPEnv.get_action_mask(td2)
+                m[over] = False
+                return m
+
+        return Guarded(generator_params={"num_loc": inst["N"], "tech_costs": list(inst["cost"])},
                        check_solution=False)
+
+    CRASHED = 4096.0     # stands for "the reward function raised" (a real reward is never positive)
+
+    def get_reward(self, env, td, actions):
+        """env._get_reward on the whole batch.  If it raises IndexError (technician index past
+        tech_costs), rows that also raise alone get CRASHED and the rest is evaluated together
+        again; if the rest still raises only as a batch, every row of it gets CRASHED."""
+        try:
+            return env._get_reward(td, actions)
+        except IndexError:
+            pass
+        B = actions.shape[0]
+        out = torch.full((B,), self.CRASHED)
+        good = []
+        for r in range(B):
+            try:
+                env._get_reward(td[r:r + 1], actions[r:r + 1])
+                good.append(r)
+            except IndexError:
+                pass
+        if good and len(good) < B:
+            idx = torch.tensor(good)
+            try:
+                out[idx] = env._get_reward(td[idx], actions[idx])
+            except IndexError:
+                pass
+        return out
+
+    def check(self, env, td, actions):
+        env.check_solution_validity(td, actions)
+        if td.shape[0] == 1:
+            # the verdict of a row must not depend on its batch-mates: once more behind a copy of itself
+            try:
+                env.check_solution_validity(torch.cat([td, td], 0), torch.cat([actions, actions], 0))
+            except Exception as e:
+                raise AssertionError("only when batched behind a copy of itself: " + str(e)[:60])
 
     def to_td(self, insts):
         locs = torch.stack([embed.locs_tensor(i["pts"], i["grid"]) for i in insts])
